@@ -12,7 +12,9 @@ structure Indep {α : Type} (f : Conn → α) : Prop where
   phase : ∀ (c : Conn) (p : Phase), f { c with phase := p } = f c
   disc : ∀ (c : Conn) (b : Bool), f { c with disconnected := b } = f c
   sent : ∀ (c : Conn) (x : Stats), f { c with sent := x } = f c
-  recv : ∀ (c : Conn) (x : Stats), f { c with recv := x } = f c
+
+/-- additionally independent of the receive counters (needed at the dispatch level only) -/
+def IndepRecv {α : Type} (f : Conn → α) : Prop := ∀ (c : Conn) (x : Stats), f { c with recv := x } = f c
 
 def Keeps {α : Type} (f : Conn → α) (s s' : Sess) : Prop := ∀ j, f (s'.conn j) = f (s.conn j)
 
@@ -49,7 +51,8 @@ include hf
 theorem keeps_setPhase (s : Sess) (i : Nat) (p : Phase) : Keeps f s (s.setPhase i p) := Keeps.setConn (hf.phase _ _)
 theorem keeps_setDisconnected (s : Sess) (i : Nat) : Keeps f s (s.setDisconnected i) := Keeps.setConn (hf.disc _ _)
 theorem keeps_bumpSent (s : Sess) (i : Nat) (g : Stats → Stats) : Keeps f s (s.bumpSent i g) := Keeps.setConn (hf.sent _ _)
-theorem keeps_bumpRecv (s : Sess) (i : Nat) (g : Stats → Stats) : Keeps f s (s.bumpRecv i g) := Keeps.setConn (hf.recv _ _)
+theorem keeps_bumpRecv (hr : IndepRecv f) (s : Sess) (i : Nat) (g : Stats → Stats) : Keeps f s (s.bumpRecv i g) :=
+  Keeps.setConn (hr _ _)
 
 theorem keeps_setSt (s : Sess) (v : St) : Keeps f s (s.setSt v) := by
   unfold Sess.setSt; split
@@ -156,36 +159,38 @@ theorem keeps_fsmNotificationReceived (s : Sess) (e sub : Nat) : Keeps f s (s.fs
     · exact Keeps.refl f s
 
 /-- every message type except OPEN -/
-theorem keeps_dispatch_nonOpen (U : Bool → Bytes → UpdClass) (s : Sess) (i ty : Nat) (body : Bytes)
+theorem keeps_dispatch_nonOpen (hr : IndepRecv f) (U : Bool → Bytes → UpdClass) (s : Sess) (i ty : Nat) (body : Bytes)
     (hty : ty ≠ C.msgOpen) : Keeps f s (dispatch U s i ty body).1 := by
   unfold dispatch
   rw [if_neg hty]
   split
   · split
-    · exact keeps_bumpRecv hf s _ _
-    · exact (keeps_bumpRecv hf s _ _).trans (keeps_emit f _ _)
-    · exact ((keeps_bumpRecv hf s _ _).trans (keeps_emit f _ _)).trans (keeps_fsmUpdateReceived hf _)
-    · exact ((keeps_bumpRecv hf s _ _).trans (keeps_emit f _ _)).trans (keeps_fsmUpdateReceived hf _)
+    · exact keeps_bumpRecv hf hr s _ _
+    · exact (keeps_bumpRecv hf hr s _ _).trans (keeps_emit f _ _)
+    · exact ((keeps_bumpRecv hf hr s _ _).trans (keeps_emit f _ _)).trans (keeps_fsmUpdateReceived hf _)
+    · exact ((keeps_bumpRecv hf hr s _ _).trans (keeps_emit f _ _)).trans (keeps_fsmUpdateReceived hf _)
   · split
     · split
       · exact Keeps.refl f s
-      · exact ((keeps_bumpRecv hf s _ _).trans (keeps_emit f _ _)).trans
+      · exact ((keeps_bumpRecv hf hr s _ _).trans (keeps_emit f _ _)).trans
           (keeps_fsmNotificationReceived hf _ _ _)
     · split
       · split
-        · exact ((keeps_bumpRecv hf s _ _).trans (keeps_emit f _ _)).trans
+        · exact ((keeps_bumpRecv hf hr s _ _).trans (keeps_emit f _ _)).trans
             (keeps_fsmKeepaliveReceived hf _)
-        · exact ((keeps_bumpRecv hf s _ _).trans (keeps_emit f _ _)).trans
+        · exact ((keeps_bumpRecv hf hr s _ _).trans (keeps_emit f _ _)).trans
             (keeps_headerError hf _ _ _)
       · split
         · split
-          · exact keeps_bumpRecv hf s _ _
-          · exact (keeps_bumpRecv hf s _ _).trans (keeps_emit f _ _)
+          · exact keeps_bumpRecv hf hr s _ _
+          · exact (keeps_bumpRecv hf hr s _ _).trans (keeps_emit f _ _)
         · exact keeps_headerError hf s _ _
 
 end
 
-theorem indep_asn4 : Indep (fun c : Conn => c.asn4) := ⟨fun _ _ => rfl, fun _ _ => rfl, fun _ _ => rfl, fun _ _ => rfl⟩
+theorem indep_asn4 : Indep (fun c : Conn => c.asn4) := ⟨fun _ _ => rfl, fun _ _ => rfl, fun _ _ => rfl⟩
+theorem indepRecv_asn4 : IndepRecv (fun c : Conn => c.asn4) := fun _ _ => rfl
+theorem indep_recv : Indep (fun c : Conn => c.recv) := ⟨fun _ _ => rfl, fun _ _ => rfl, fun _ _ => rfl⟩
 
 end Sess
 end Yabgp
